@@ -149,9 +149,11 @@ def wdHandle (cfg : Cfg) (forest : List Node) (sp : List Nat) (rootDev : Option 
       .ok (dent, pushed)
     | _ => .ok (dent, false)
 
-/-- Result of processing one walkdir entry in `Walk::next`: what was yielded, whether
-`skip_current_dir` popped the *parent's* list (remaining siblings are never read), and the `ig`
-stack afterwards. -/
+/-- Result of processing one walkdir entry in `Walk::next`: what was yielded, whether the *parent's*
+list was popped so that the remaining siblings are never read (`abort`: since the repair of finding F25
+— `skip_current_dir` is called only for a directory walkdir descends into — no entry sets it; the field
+and the plumbing in `serKids` are kept so that a model of the old behaviour differs in one place only),
+and the `ig` stack afterwards. -/
 structure SerRes where
   outs : List Out
   abort : Bool
@@ -170,7 +172,9 @@ def serEntry (cfg : Cfg) (forest : List Node) (jump : SerContents) (rootDev : Op
       -- WalkEvent::Dir
       if skipEntry cfg ig (pp ++ [name]) name dent then
         -- skip_current_dir(); add_child (push) ... Exit (pop)
-        ⟨[], !pushed, (((ino, ign) :: ig).tail)⟩
+        -- skip_current_dir() is only called when walkdir descends into the directory (it was pushed):
+        -- the parent's listing is never popped
+        ⟨[], false, (((ino, ign) :: ig).tail)⟩
       else
         let ig' := (ino, ign) :: ig
         if pushed && depthOk cfg (depth + 1) then
@@ -185,7 +189,7 @@ def serEntry (cfg : Cfg) (forest : List Node) (jump : SerContents) (rootDev : Op
       match dent with
       | .dir d _ =>
         if skipEntry cfg ig (pp ++ [k.name]) k.name dent then
-          ⟨[], !pushed, (((d.ino, d.ign) :: ig).tail)⟩
+          ⟨[], false, (((d.ino, d.ign) :: ig).tail)⟩
         else
           let ig' := (d.ino, d.ign) :: ig
           if pushed && depthOk cfg (depth + 1) then
